@@ -131,6 +131,26 @@ def raise_key(ev: Event) -> str:
     return f"{head} in {where}"
 
 
+GUARD_VOCAB = (
+    ("outdeg", r"outdeg|out_degree|successors|succs\("),
+    ("indeg", r"indeg|in_degree|predecessors|preds\(|in_edges|pred1\("),
+    ("time", r"time"),
+    ("edge", r"has_edge"),
+    ("node", r"has_node"),
+    ("seg", r"segmentation"),
+    ("trackid", r"tid\(|track_id|tracklet"),
+    ("key", r"haskey| not in | in "),
+    ("none", r"is None|is not None"),
+)
+
+
+def guard_signature(text: str) -> str:
+    """What a guard is ABOUT, in a small fixed vocabulary - stable under re-spelling of the guard (out_degree(x) == 2,
+    len(successors(x)) > 1, a local holding the degree), different for raises that test different things."""
+    hits = [name for name, rx in GUARD_VOCAB if re.search(rx, text)]
+    return "+".join(hits[:2]) if hits else "-"
+
+
 def trail_text(trail: list, limit: int = 25) -> list[str]:
     return [f"line {ln}: {'' if o else 'not '}({strip(k)[:110]})" for ln, k, o in trail[-limit:]]
 
